@@ -40,6 +40,7 @@ prop("C05", "RK-json (writer/reader key agreement for 11 to_json/from_json pairs
 prop("C06", "RK-kinds (expression kinds agree between parser, NFA compiler and type), RM (group membership on split lists), RG gates of schema build", [rk.rule_rk_kinds, rsmall.rule_rm, rcustom.rule_nfa_loops, rcustom.rule_rec_guard, gates("C06")])
 prop("C08", "RS (flat record arrays ranges/mirror: writer arity, reader residues, selectors, accumulator), RI (guarded index not advanced before use), RL over map.py, RG gates of the mapping algebra", [
     rs.rule_rs_writers,
+    rcustom.rule_rt3,
     lambda p, r: rs.rule_rs_readers(p, r, ("ranges", "mirror")),
     rs.rule_rs_selectors,
     rs.rule_rs_accumulator,
